@@ -645,7 +645,10 @@ func H17Twice() {
 func H17Geomean() {
 	h17Vals, h17Next = nil, 0
 	names := []string{"A", "B", "C"}
-	vals := [2][]float64{{100, 400, 1600}, {200, 0, 3200}}
+	// scale 1: ordinary values; the others: means whose product over- or underflows although
+	// their geometric mean is representable
+	scale := []float64{1, 1e150, 1e-150}[vndParam("scale")]
+	vals := [2][]float64{{100 * scale, 400 * scale, 1600 * scale}, {200 * scale, 0, 3200 * scale}}
 	var present [2][3]bool
 	var rs [2][]*benchfmt.Result
 	for k := 0; k < 2; k++ { // results are parsed configuration by configuration
@@ -658,17 +661,17 @@ func H17Geomean() {
 	}
 	c := &Collection{AddGeoMean: true}
 	nconf := 0
-	var prod [2]float64
+	var sumLog [2]float64
 	var cnt [2]int
 	for k, cfg := range []string{"old", "new"} {
 		if len(rs[k]) == 0 {
 			continue
 		}
 		c.AddResults(cfg, rs[k])
-		prod[nconf], cnt[nconf] = 1, 0
+		sumLog[nconf], cnt[nconf] = 0, 0
 		for i := range names {
 			if present[k][i] && vals[k][i] != 0 {
-				prod[nconf] *= vals[k][i]
+				sumLog[nconf] += math.Log(vals[k][i])
 				cnt[nconf]++
 			}
 		}
@@ -709,7 +712,7 @@ func H17Geomean() {
 			vndAssert(geo.Metrics[k].Mean == 0, "no-contribution-no-geomean")
 			continue
 		}
-		g[k] = math.Pow(prod[k], 1/float64(cnt[k]))
+		g[k] = math.Exp(sumLog[k] / float64(cnt[k]))
 		vndAssert(close(geo.Metrics[k].Mean, g[k]), "geomean-is-the-geometric-mean-of-the-non-zero-means")
 	}
 	if nconf == 2 && cnt[0] > 0 && cnt[1] > 0 {
